@@ -27,6 +27,8 @@ pub enum ScriptOut {
     Ok(XV),
     /// the argument itself
     Echo,
+    /// element n of a list argument (none otherwise)
+    Nth(usize),
     /// a string naming function, tag, ordinal and argument — unique per invocation
     Unique,
     /// a value of the given type derived from (salt, fn, arg[, tag][, ordinal])
